@@ -259,13 +259,16 @@ def dir_style(rng, cwd, abs_dir, proj: Project):
     return rel
 
 
-def gen_plan(seed: int, mode: str):
-    """mode: 'c09' (mutation-heavy, unkeyed) | 'c18' (valid-heavy, keyed)."""
+def gen_plan(seed: int, mode: str, scale: int = 1):
+    """mode: 'c09' (mutation-heavy, unkeyed) | 'c18' (valid-heavy, keyed).
+    scale > 1 (thorough tier, a third of the seeds): longer histories, more projects."""
     rng = Rng(seed, "workload", mode)
     cfg = Rng(seed, "swarm", mode)
+    if scale > 1 and not Rng(seed, "scale").chance(0.34):
+        scale = 1
     img = {"dirs": ["/w"], "files": {}, "symlinks": {}, "hardlinks": {}, "cwd": "/w"}
     projects = []
-    nproj = cfg.randint(2, 5) if mode == "c09" else cfg.randint(1, 3)
+    nproj = (cfg.randint(2, 5) if mode == "c09" else cfg.randint(1, 3)) + (scale - 1)
     if mode == "c09":
         mix = [("mutated", cfg.randint(2, 8)), ("template", cfg.randint(1, 6)), ("soup", cfg.randint(0, 3)), ("corpus", 1), ("generated", cfg.randint(0, 2))]
     else:
@@ -494,7 +497,7 @@ def gen_plan(seed: int, mode: str):
         ops.append({"op": "cli", "argv": argv})
 
     # build the task list, then let the seeded scheduler interleave the steps
-    ntasks = cfg.randint(4, 10) if mode == "c09" else cfg.randint(3, 8)
+    ntasks = (cfg.randint(4, 10) if mode == "c09" else cfg.randint(3, 8)) * scale
     tasks = []
     for t in range(ntasks):
         p = rng.choice(projects)
@@ -503,6 +506,8 @@ def gen_plan(seed: int, mode: str):
     p_jitter = cfg.choice([0.0, 0.1, 0.25])
     p_edit = cfg.choice([0.0, 0.05, 0.12])
     p_chdir = cfg.choice([0.0, 0.08, 0.2])
+    p_tamper = cfg.choice([0.0, 0.05, 0.12]) if mode == "c18" else cfg.choice([0.0, 0.0, 0.05])
+    ntamper = 0
     interleave = cfg.chance(0.7)
     sched = Rng(seed, "sched", mode)
     live = [t for t in tasks if t]
@@ -532,7 +537,7 @@ def gen_plan(seed: int, mode: str):
             d = sched.choice(["/w", p.root, p.root + "/out", "/"])
             ops.append({"op": "chdir", "path": d})
             state["cwd"] = d
-        if sched.chance(p_edit) and nedit < 3:
+        if sched.chance(p_edit) and nedit < 3 * scale:
             # edit-and-recompile: same path, different content (language-server pattern)
             p = sched.choice(projects)
             nedit += 1
@@ -559,6 +564,24 @@ def gen_plan(seed: int, mode: str):
             for st in cli_task(p):
                 st()
             live.append(api_task(p))
+        if sched.chance(p_tamper) and ntamper < 3 * scale:
+            # someone else modified what an earlier compile left in an output directory;
+            # the next compile of the same thing must not care
+            ntamper += 1
+            tr = rng.sub("tamper", ntamper)
+            p = tr.choice(projects)
+            d = tr.choice([p.root + "/out", p.root + "/out", p.root])
+            how = tr.choice(["crlf", "crlf", "cr", "truncate", "empty", "append", "bom", "same_size", "strip_final_newline", "trailing_ws", "touch_future", "touch_past"])
+            ops.append({"op": "tamper", "dir": d, "pick": tr.below(16), "how": how, "frac": tr.choice([0, 10, 50, 90, 99])})
+            for lang in tr.sample(LANGS, tr.randint(1, 3)):
+                argv = [lang, p.root + "/" + p.main, d]
+                if tr.chance(0.5):
+                    argv.append("-q")
+                op = {"op": "cli", "argv": argv, "outdir_abs": d}
+                k = key_for(p, lang, False, None, "both")
+                if k:
+                    op["key"] = k
+                ops.append(op)
         if mode == "c09" and sched.chance(0.04):
             weird_cli()
     if mode == "c09" and cfg.chance(0.3):
